@@ -30,7 +30,7 @@ SPEC = {
         # the chain Go source -> generated definition -> model -> specification closed: C17_tie composed with the specification
         "Sema.C17.C17_tie_curate", "Sema.C17.C17_curate_generated",
         # the comparator of the merge on sort keys IS C06's sortCmp over cmpAny (all kinds msgpack decodes into); its tie to utils/compare.go
-        "Sema.C17.C17_search_multi", "Sema.C17.C17_merge_cmp_preorder", "Sema.C17.C17_merge_keys", "Sema.C17.C17_merge_missing_last", "Sema.C17.C17_merge_numeric",
+        "Sema.C17.C17_search_multi", "Sema.C17.C17_search_keys", "Sema.C17.C17_merge_cmp_preorder", "Sema.C17.C17_merge_keys", "Sema.C17.C17_merge_missing_last", "Sema.C17.C17_merge_numeric",
         "Sema.C17.C17_tie_merge_cmp", "Sema.C17.C17_tie_merge_sorted", "Sema.C17.C17_tie_merge_isort",
     ],
     "trusted_base": [
